@@ -8,7 +8,7 @@ Extraction "model.ml"
   Z.add Z.mul Z.opp Z.of_N N.add N.mul N.of_nat Nat.add Z.compare N.compare
   show_Z show_N f64_of_bits f64_canon_bits show_f64
   term_eqb goal_eqb
-  ss_get ss_set get_ground_term get_constant get_list get_complex is_ground_variable
+  ss_get ss_set is_bound get_binding get_ground_term get_constant get_list get_complex is_ground_variable
   bip_compare evaluate
   show_term term_key make_linked_list make_list_of_terms link_front count_terms get_terms
   unify evaluate_join eval_function replace_variables filter run_bip format_for_print_pred format_slist
